@@ -13,7 +13,14 @@
    The property (C18): "an exponent outside the interpolation range raises an error instead of being silently
    extrapolated" -- so "unguarded" must be reachable only through an explicit request.  For the flags a derived plan
    was NOT given, the code may inherit them from the base plan or fall back to the defaults (both are readings of
-   "same settings"); the table therefore gives the SET of admissible outcomes per case. *)
+   "same settings"); the table therefore gives the SET of admissible outcomes per case.
+
+   WHERE the offending point sits relative to the low-density cutoff is part of the case: rhocut is a cutoff on the TOTAL
+   density, a plan for nspin channels sees per-channel densities and masks a point iff nspin * rho_channel < rhocut.
+     "dense"   far above the cutoff
+     "window"  total density in (rhocut, nspin * rhocut]: above the cutoff, but the per-channel density is below rhocut
+               (for nspin = 1 the window is empty and the point sits just above the cutoff)
+     "below"   total density below the cutoff: the point is masked, nothing is evaluated there and nothing is raised *)
 EXTENDS Integers, Sequences, FiniteSets, TLC
 CONSTANTS Classes        \* plan classes
 Tri == {"unset", "T", "F"}
@@ -21,14 +28,16 @@ VARIABLES case
 vars == <<case>>
 None == <<>>
 \* base: how the base plan was constructed; kw: keyword overrides given to new() ("none" = direct use of the base plan)
-Cases == {[cls |-> c, bsmooth |-> bs, braise |-> br, derive |-> d, ksmooth |-> ks, kraise |-> kr] :
-             c \in Classes, bs \in {"unset", "T"}, br \in Tri, d \in BOOLEAN, ks \in Tri, kr \in Tri}
+Cases == {[cls |-> c, bsmooth |-> bs, braise |-> br, derive |-> d, ksmooth |-> ks, kraise |-> kr, nspin |-> ns, where |-> w] :
+             c \in Classes, bs \in {"unset", "T"}, br \in Tri, d \in BOOLEAN, ks \in Tri, kr \in Tri,
+             ns \in {1, 2}, w \in {"dense", "window", "below"}}
 WellFormed(c) == (~c.derive => (c.ksmooth = "unset" /\ c.kraise = "unset"))
 \* somebody explicitly asked for no error
 AskedNoRaise(c) == c.braise = "F" \/ c.kraise = "F"
 AskedSmooth(c) == c.bsmooth = "T" \/ c.ksmooth = "T"
 Admissible(c) ==
-  IF ~c.derive THEN
+  IF c.where = "below" THEN {"masked"}
+  ELSE IF ~c.derive THEN
        (IF c.bsmooth = "T" THEN {"capped"} ELSE IF c.braise = "F" THEN {"unguarded"} ELSE {"raises"})
   ELSE IF c.ksmooth = "T" THEN {"capped"}
   ELSE IF c.ksmooth = "F" THEN
@@ -49,6 +58,8 @@ Next == \E c \in Cases : Pick(c)
 Spec == Init /\ [][Next]_vars
 \* ---- the property: never silent unless asked
 NeverSilentUnlessAsked == case # None => ("unguarded" \in Admissible(case) => AskedNoRaise(case))
+\* the guard applies at every point that is not masked, whatever the number of spin channels
+GuardCoversTheWindow == case # None => (case.where = "window" => Admissible(case) = Admissible([case EXCEPT !.where = "dense"]))
 NeverEmpty == case # None => Admissible(case) # {}
 CappedOnlyIfAsked == case # None => ("capped" \in Admissible(case) => AskedSmooth(case))
 Emit == case # None => PrintT(<<"GUARDCASE", case, Admissible(case)>>)
